@@ -24,7 +24,9 @@ META = {
              'flush are C10), composite key = injective tuple, Null == missing for indexing, storage faults as an '
              'oracle input; doc_locks/operation gate are C05; crash recovery of such histories is C01 (not repeated '
              'here). The concurrent Coq model covers one contested key of one index; partial application of '
-             'insert_array under a racing writer is explored on the implementation only (multi-thread rounds).'),
+             'insert_array under a racing writer is explored on the implementation only (multi-thread rounds) and is the '
+             'open finding conc-rejected-array-update-leaves-postings (known_findings.json; Coq face: '
+             'C04_conc_array_update_partial_refuted).'),
     'technique': 'Coq proof (invariant by induction over histories; small-step interleaving invariant) + translator-generated facts + differential model/impl run + direct oracle',
 }
 
